@@ -25,12 +25,19 @@ ipaddrs.find_addresses = lambda: ["127.0.0.1"]
 OBS_NAMES = ["RolesAgree", "AtMostOneSelected", "FollowerFollowsLeader", "Converged", "StopCompletes", "NothingLeft",
              "OldPeerReported", "NoInternal"]
 SIDE_BYTES = {"L": b"\xff" * 5, "F": b"\x00" * 5}
+# the dilation sides (make_side() at dilate()) decide the roles: "L" is the one with the greater side.  Pairs that are far
+# apart, adjacent, equal but for the last nibble, and a letter against a digit in the hex spelling
+DILATION_SIDES = [{"L": b"\xff" * 8, "F": b"\x00" * 8},
+                  {"L": b"\x80" + b"\x00" * 7, "F": b"\x7f" + b"\xff" * 7},
+                  {"L": b"\x12" * 7 + b"\x35", "F": b"\x12" * 7 + b"\x34"},
+                  {"L": b"\xa0" + b"\x11" * 7, "F": b"\x9f" + b"\x11" * 7}]
 
 
 class FullWorld:
     """names: "L" is the wormhole with the greater side (Leader), "F" the other"""
 
-    def __init__(self, dilation=("L", "F")):
+    def __init__(self, dilation=("L", "F"), variant=0):
+        self.dsides = DILATION_SIDES[variant % len(DILATION_SIDES)]
         self.mb = MailboxWorld(seed=0, clients=(("F", "deferred"), ("L", "deferred")), sides=SIDE_BYTES,
                                dilation=True, versions=None)
         self.cl = self.mb.clients
@@ -200,7 +207,7 @@ class FullWorld:
         if a == "AppDilate":
             # the dilation side (make_side(): fresh random bytes) decides the role: pin it
             from ..mbworld import pinned_urandom
-            with pinned_urandom(SIDE_BYTES[x]):
+            with pinned_urandom(self.dsides[x]):
                 self.api[x] = self.cl[x].w.dilate()
         elif a == "VersionsArrive":
             self._deliver_held(x, lambda fr: fr["phase"] == "version")
@@ -482,7 +489,7 @@ BENIGN = ("no transition for MethodicalInput(method=<function Connector.accept",
 
 
 def replay_behaviour(tid, states):
-    w = FullWorld()
+    w = FullWorld(variant=tid)
     drift = None
     for i, st in enumerate(states[1:], start=1):
         la = st["last"]
